@@ -16,7 +16,7 @@ def status_arg(f, call):
     """if `call` is a cfitsio-style call (extern C, last argument &local int) return the local's decl id."""
     n = f.nodes[call]
     cal = n.get("callee")
-    if not cal or not cal.get("externC") or cal.get("inRoots"):
+    if not cal or not cal.get("externC") or cal.get("hasBody"):
         return None
     args = f.args(call)
     if not args:
